@@ -14,15 +14,20 @@ ID = "C07"
 RULE = ("case = (loader in {split-degree, delta}, probs over 1..4 clique topologies, motif_sizes, degree range "
         "[lo,hi) within 0..13, target degree inside / outside / adjacent to the range, fp as a look-up table); "
         "probs and fp are dyadic floats handed to the model as exact rationals; corpus = the DESIGN section-3 "
-        "replay; then a structured enumeration over (loader, #topologies, lo, width, target position) and seeded "
+        "replay; then EVERY case of a small domain (quick: <=2 topologies, lo<=1, width<=2, probs in {0,1/2,1}, fp in "
+        "{1/4,1/2}, every target position; thorough: <=3 topologies, lo<=2, fp in {0,1/4,1/2}); then a structured "
+        "enumeration over (loader, #topologies, lo, width, target position) and seeded "
         "random cases, then a malformed stream (no topology, empty motif_sizes, W_k = 0, all-zero fp, empty range) "
         "whose expected result is the model's exception class; each case observes three tables (constructor, "
         "second create_jdd() on the same object, load_joint_degree dispatch); non-trivial = no exception, at "
         "least two degrees in the range and at least one degree with two or more admissible splits; distinct by "
         "the full case")
-EXHAUSTIVE = {"quick": False, "thorough": False}
+EXHAUSTIVE = {"quick": True, "thorough": True}
 EXPLANATION = ("general theorems (all fp, all probability vectors, all ranges, all targets) in Props/C07.v for the "
-               "model; the model is tied to the code by comparing whole tables on enumerated + random inputs and "
+               "model; the model is tied to the code by comparing whole tables on every case of a small domain "
+               "(exhaustive: <=2 (quick) / <=3 (thorough) topologies, range width <=2, probs in {0,1/2,1}, fp in "
+               "{1/4,1/2} / {0,1/4,1/2}, every target position), structured + random inputs up to degree 13 and a "
+               "malformed stream, and "
                "the verified checker c07_check judges every table the implementation returns (tolerance 1e-9 for "
                "floating point; the checker is proved equivalent to the Prop-level Spec for every tolerance)")
 ASSUMPTIONS = [
@@ -175,8 +180,30 @@ def _malformed(rng):
     return out
 
 
+def _exhaustive(tier):
+    """every case of a small domain: loader x T x lo x width x probs in P^T x fp in Q^width x every target
+    position (delta); quick: T<=2, lo<=1, width<=2, P={0,1/2,1}, Q={1/4,1/2}; thorough: T<=3, lo<=2, P as
+    before for T<=2 and {1/2,1} beyond, Q={0,1/4,1/2}"""
+    quick = tier == "quick"
+    h, q, z, one = Fraction(1, 2), Fraction(1, 4), Fraction(0), Fraction(1)
+    for T in ([1, 2] if quick else [1, 2, 3]):
+        P = [z, h, one] if T <= 2 else [h, one]
+        Qs = [q, h] if quick else [z, q, h]
+        for lo in ([0, 1] if quick else [0, 1, 2]):
+            for w in [1, 2]:
+                hi = lo + w
+                for probs in itertools.product(P, repeat=T):
+                    for fps in itertools.product(Qs, repeat=w):
+                        sizes = [i + 2 for i in range(T)]
+                        yield _case(0, probs, sizes, lo, hi, 0, fps, "exhaustive")
+                        for target in range(lo - 1, hi + 1):
+                            yield _case(1, probs, sizes, lo, hi, target, fps, "exhaustive")
+
+
 def generate(rng, tier):
     quick = tier == "quick"
+    for c in _exhaustive(tier):
+        yield c
     # structured enumeration: loader x topologies x lo x width x target position
     widths = [1, 2, 4] if quick else [1, 2, 3, 5]
     los = [0, 1, 3] if quick else [0, 1, 2, 5]
@@ -389,12 +416,13 @@ def histogram(cases):
             h["delta_target_inside" if c["lo"] <= c["target"] < c["hi"] else "delta_target_outside"] += 1
             if len(c["motif_sizes"]) != len(c["probs"]):
                 h["len(motif_sizes)!=len(probs)"] += 1
-        if c.get("tag", "") not in ("", "enum") and not c.get("tag", "").startswith("design") \
+        if c.get("tag", "") not in ("", "enum", "exhaustive") and not c.get("tag", "").startswith("design") \
                 and not c.get("tag", "").startswith("delta,"):
             h["malformed_or_edge"] += 1
         tops[len(c["probs"])] = tops.get(len(c["probs"]), 0) + 1
         w = max(0, c["hi"] - c["lo"])
         width[w] = width.get(w, 0) + 1
+    h["exhaustive_small_domain"] = sum(1 for c in cases if c.get("tag") == "exhaustive")
     h["topologies"] = {str(k): v for k, v in sorted(tops.items())}
     h["range_width"] = {str(k): v for k, v in sorted(width.items())}
     h["max_hi"] = max((c["hi"] for c in cases), default=0)
